@@ -6,6 +6,9 @@ nintendo/nex/{streams,common,errors}.py:
   * differential correspondence real code vs compiled model on stream primitives, DateTime (4 time zones,
     civil calendar day by day), StationURL, Result, Structure header logic and DataHolder
   * the property oracle (round trips) on the real code for every generated case
+  * walks on ONE object (harness/nexval_walk.py): a StationURL / Structure / DataHolder / stream / DateTime / Result that is
+    read, serialised, edited through its public mutators, copied, decoded-into and serialised again must show at every step
+    what a freshly built object with the same logical content shows; tied to `ObjWalk.run` / `wSeq` / `rSeq`
 """
 import datetime, os, struct, time
 import nintendo.nex.errors as nex_errors
@@ -13,6 +16,7 @@ from nintendo.nex import common, streams
 import logging
 import nexval_gen as G
 import nexval_errors as T
+import nexval_walk as W
 
 logging.getLogger("nintendo.nex.common").setLevel(logging.ERROR)   # "version is higher than expected" warnings of Structure.decode
 
@@ -622,11 +626,29 @@ def url_cases(ctx, B, quick):
                 B.add("url.get %s %s" % (G.show_str(f), show_url(p)), greal, ("url.get-raw", None))
 
 
+# ------------------------------------------------------------------ replay
+def replay(ctx, path):
+    """re-runs the input named by a replay file of a walk on one StationURL object; exit 1 when it still fails"""
+    import json
+    r = json.load(open(path))
+    if not str(r.get("key", "")).startswith("stationurl-walk:"):
+        print("replay of %r: re-run the operation described under 'how' by hand" % r.get("key"))
+        return 2
+    st = r["start"]
+    ops = [tuple(op) for op in r["operations_raw"]]
+    obs, u, problems = W.exec_url_walk((st["how"], st["scheme"], st["params"]), ops)
+    for op in ops: print("  " + W.op_text(op))
+    for i, t in problems: print("PROBLEM after operation %d: %s" % (i, t))
+    print("replay: %d problem(s)" % len(problems))
+    return 1 if problems else 0
+
+
 # ------------------------------------------------------------------ run
 THEOREMS = {
     "w": ["Nx.C15.string_roundtrip", "Nx.C15.list_roundtrip", "Nx.C15.map_roundtrip", "Nx.C15.variant_roundtrip"],
     "dt": ["Nx.C15.datetime_make_fields", "Nx.C15.datetime_unix_partial"],
-    "url": ["Nx.C15.stationurl_roundtrip"],
+    "url": ["Nx.C15.stationurl_parse_repr", "Nx.C15.stationurl_stream_roundtrip", "Nx.C15.stationurl_walk_observations", "Nx.C15.stationurl_walk_roundtrip"],
+    "seq": ["Nx.C15.stream_sequence_roundtrip", "Nx.C15.stream_sequence_concat"],
 }
 
 
@@ -638,6 +660,10 @@ def run(ctx):
                 "all truncations + bit flips of sampled encodings, hand-made and random byte strings, maps with repeated keys; Structure levels with/without header; "
                 "DataHolder framing for every registered class; DateTime fields/make, civil calendar day by day, timestamp/fromtimestamp in 4 time zones incl. range edges; "
                 "StationURL repr/parse/getitem/stream over documented and arbitrary parameters; Result error bit and names over the whole table. "
+                "Walks on ONE object: StationURL built by ctor/parse/stream then str/repr/typed reads/url[k]=v/.params edits/.urlscheme/copy/re-parse/stream writes in random order "
+                "(model ObjWalk.run, every observation and the final round trip compared with a freshly built url of the same content, failing walks shrunk); several typed values through one "
+                "StreamOut/StreamIn incl. a shared Settings object whose pid size changes (model wSeq/rSeq); DateTime/Result/RMCError accessor sequences; Structure objects and DataHolder "
+                "encoded, edited, decoded-into and re-encoded. "
                 "distinct non-trivial = distinct lines whose model result is not a plain rejection of random bytes")
     ctx.assumptions.append("CPython datetime / process time zone (glibc TZ rules for fixed offsets) behave as modelled; compared, not proved")
     ctx.assumptions.append("int(str) is modelled for ASCII digits only; non-ASCII decimal digits and the 4300-digit limit are outside the model")
@@ -648,6 +674,7 @@ def run(ctx):
     structure_cases(ctx, B, quick)
     datetime_cases(ctx, B, quick)
     url_cases(ctx, B, quick)
+    W.run(ctx, B, entries, quick)
     B.add("errtab.check", "ok %s %d - -" % (G.show_bool(bool(entries) and not ctx.extra.get("error_table_obligations_failed")), len(entries)), ("errtab.check", None))
 
     drv = ctx.driver()
